@@ -46,6 +46,8 @@ class C11(timed.TimedHarness):
         return {"cancel_step": s.steps, "cancel_time": s.now}
 
     def check(self, p, ex):
+        if ex.verdict == "time-horizon":
+            return []       # the harness's own scripted sleep slipped past the time horizon under clock deviations: nothing observed
         if ex.verdict != "done":
             return [("C11/%s" % ex.verdict, "execution ended with %s: %r" % (ex.verdict, ex.obs))]
         o = ex.obs
